@@ -129,6 +129,9 @@ func c07RandomScenario(r *rand.Rand) c07Sc {
 			}
 		}
 		sc.Red = red
+		if sc.hasOutput() && r.Intn(4) == 0 {
+			sc.OutVal = []string{"nil", "int0", "empty-string", "false", "nil-ptr", "empty-struct"}[r.Intn(6)]
+		}
 	}
 	if allow("panic") && (sc.Entry == "MapReduce" || sc.Entry == "MapReduceVoid" || sc.Entry == "ForEach") && r.Intn(6) == 0 {
 		sc.GenPanicAt = r.Intn(sc.N + 1)
